@@ -3,7 +3,7 @@ import json, os, sys
 import lib
 from lib import *
 
-TIERS = {"quick": dict(runs=160, steps=30), "thorough": dict(runs=2400, steps=40)}
+TIERS = {"quick": dict(runs=160, steps=30), "thorough": dict(runs=8000, steps=40)}
 
 
 def store_small(ck):
